@@ -21,7 +21,7 @@ EXITS = ('0', '3', 'term', 'kill')
 KNOBS = ('cwd', 'umask', 'shell', 'ifile', 'noorg', 'noatt', 'mailrun', 'att2', 'slowmail', 'mailfail')
 # clauses a knob can bear on; routing clauses do not carry the knob in their signature
 KNOB_CLAUSES = ('cwd', 'umask', 'stdin', 'shell', 'mail-unwanted', 'mail-count', 'mail-hdr', 'run-count', 'hang', 'echsx-died')
-# under the slowmail knob (1 s limit, job done at once, mailer busy for 2 s) every clause carries the knob
+# under the slowmail knob (2 s limit, job done at once, mailer busy for 4 s) every clause carries the knob
 ALL_CLAUSES_KNOBS = ('slowmail', 'mailfail')
 SIZES = {'silent': (0, 0), 'out3': (192, 0), 'err3': (0, 192), 'alt50': (1600, 1600), 'big': (204800, 204800)}
 IFILE_TEXT = b''.join(bytes([97 + (i * 5 + i // 64) % 26]) if i % 64 != 63 else b'\n' for i in range(70000))
@@ -171,7 +171,7 @@ def run_case(D, d, row, jobm, ex, knob, uid, echsx, shim, rec, job):
     extra = ()
     if knob == 'slowmail':
         # the job is over long before its limit, the mailer is still at it when the limit runs out
-        extra = ('DURATION:PT1S',)
+        extra = ('DURATION:PT2S',)
     uidtxt = 'c13-%d' % D.idx
     txt = vtodo(uidtxt, cmd, row, d, uid, k, extra)
     D.desc('row %s (OFILE=%s EFILE=%s MAIL-OUT=%d MAIL-ERR=%d) job=%s exit=%s knob=%s; request: %s' % (
@@ -182,7 +182,7 @@ def run_case(D, d, row, jobm, ex, knob, uid, echsx, shim, rec, job):
     env = {'LD_PRELOAD': shim, 'E3_MAILREC': rec, 'E3_MAILFILE': os.path.join(d, 'mail'),
            'E3_LOG': os.path.join(d, 'shim.log'), 'PATH': '/usr/bin:/bin'}
     if knob == 'slowmail':
-        env['E3_MAILDELAY'] = '2'
+        env['E3_MAILDELAY'] = '4'
     if knob == 'mailfail':
         # the mailer takes the message and reports EX_TEMPFAIL: echsx may complain, but the job has run, its
         # status is journalled and nothing is left behind
